@@ -109,6 +109,109 @@ def r_lu_full(rep, f):
                               (init or c).get("sp"))
 
 
+def _mat_index(z):
+    """(row id, col id, names) of `M[(r, c)]` with plain local indices, else None"""
+    if z.get("k") != "Index" or "Matrix" not in (z.get("base_ty") or ""):
+        return None
+    i = z.get("i") or {}
+    if i.get("k") != "Tuple" or len(i.get("elems", [])) != 2:
+        return None
+    r, c = i["elems"]
+    if r.get("k") == "Path" and c.get("k") == "Path" and r.get("res") == "local" and c.get("res") == "local":
+        return (r["id"], c["id"], (r.get("name"), c.get("name")))
+    return None
+
+
+def _vec_index(z):
+    """(base name, index id, index name) of `v[k]` on a float slice / Vec with a plain local index"""
+    if z.get("k") != "Index" or "Matrix" in (z.get("base_ty") or ""):
+        return None
+    i = z.get("i") or {}
+    if i.get("k") == "Path" and i.get("res") == "local" and i.get("ty") == "usize":
+        return (tast.render(z["e"]), i["id"], i.get("name"))
+    return None
+
+
+def r_mat_orient(rep, f):
+    """orientation of every matrix element access under methods/ and in the finite-difference Jacobian:
+    (a) element-wise combination  X[(a,b)] = g(M[(a,b)], J[(a,b)])  uses one and the same index pair on both sides;
+    (b) a product  M[(r,c)] * v[k]  (directly or through `let m = M[(r,c)]`) multiplies by the component k == c (M*v, not M^T*v);
+    (c) the finite-difference Jacobian stores column `col` = the perturbed component and row = the component of the difference."""
+    n_a = n_b = n_c = 0
+    for b in f.body_list:
+        d = b["def"]
+        if not (d.startswith("methods::") or d == "ivp::IVP::jac"):
+            continue
+        body = b["body"]
+        sites = tast.find_with_parents(body, lambda z: _mat_index(z) is not None)
+        if not sites:
+            continue
+        rep.fn(d)
+        # let-bound copies of a matrix element
+        alias = {}
+        for l in tast.find(body, lambda z: z.get("k") == "Let" and z.get("init") is not None and _mat_index(z["init"]) is not None and z["pat"].get("k") == "PBind"):
+            alias[l["pat"]["id"]] = (_mat_index(l["init"]), l["init"])
+        for z, parents in sites:
+            mi = _mat_index(z)
+            asg = next((p for p in reversed(parents) if p.get("k") in ("Assign", "AssignOp")), None)
+            # (a)/(c): z is the assigned element
+            if asg is not None and asg["l"] is z:
+                reads = [q for q in tast.find(asg["r"], lambda q: _mat_index(q) is not None)]
+                key = "R-MAT-ORIENT:%s:%s[(%s,%s)]" % (d, tast.render(z["e"]), mi[2][0], mi[2][1])
+                bad = [q for q in reads if _mat_index(q)[:2] != mi[:2]]
+                vecs = [v for v in (_vec_index(q) for q in tast.find(asg["r"], lambda q: _vec_index(q) is not None)) if v]
+                if bad:
+                    rep.violation("R-MAT-ORIENT", key, "`%s` is assigned from `%s`: the index pair differs, so one operand enters transposed" % (tast.render(z), tast.render(bad[0])), z.get("sp"))
+                    continue
+                if reads:
+                    n_a += 1
+                    rep.ok("R-MAT-ORIENT", key, "element-wise: %d matrix read(s) with the same (row, col) pair" % len(reads))
+                elif vecs:
+                    # (c) finite differences: the vectors on the right are indexed by the row, and the column variable indexes the perturbed component
+                    wrong = [v for v in vecs if v[1] != mi[0]]
+                    loop = next((p for p in reversed(parents) if p.get("k") == "For" and p["pat"].get("id") == mi[1]), None)
+                    pert = []
+                    if loop is not None:
+                        pert = tast.find(loop["body"], lambda q: q.get("k") in ("Assign", "AssignOp") and _vec_index(q["l"]) is not None and _vec_index(q["l"])[1] == mi[1])
+                    if wrong:
+                        rep.violation("R-MAT-ORIENT", key, "`%s` is assigned from `%s`, a vector component that is not the row `%s`" % (tast.render(z), "%s[%s]" % (wrong[0][0], wrong[0][2]), mi[2][0]), z.get("sp"))
+                    elif d == "ivp::IVP::jac" and not pert:
+                        rep.violation("R-MAT-ORIENT", key, "finite-difference Jacobian: the column index `%s` is not the component that is perturbed in the enclosing loop" % mi[2][1], z.get("sp"))
+                    else:
+                        n_c += 1
+                        rep.ok("R-MAT-ORIENT", key, "row = component of the difference, column = perturbed component (%d perturbation store(s))" % len(pert))
+                continue
+            # (b) a read multiplied with a vector component
+            uses = []
+            par = parents[-1] if parents else None
+            if par is not None and par.get("k") == "Let" and par.get("init") is z and par["pat"].get("k") == "PBind":
+                vid = par["pat"]["id"]
+                blk = next((p for p in reversed(parents[:-1]) if p.get("k") in ("Block", "For", "Loop")), body)
+                for m, mp in tast.find_with_parents(blk, lambda q: q.get("k") == "Binary" and q.get("op") == "Mul"):
+                    for side, other in ((m["l"], m["r"]), (m["r"], m["l"])):
+                        if side.get("k") == "Path" and side.get("id") == vid:
+                            uses.append((m, other))
+            else:
+                m = next((p for p in reversed(parents) if p.get("k") == "Binary" and p.get("op") == "Mul"), None)
+                if m is not None:
+                    other = m["r"] if tast.contains(m["l"], lambda q: q is z) else m["l"]
+                    uses.append((m, other))
+            for m, other in uses:
+                vs = [v for v in (_vec_index(q) for q in tast.find(other, lambda q: _vec_index(q) is not None)) if v]
+                if not vs:
+                    continue
+                key = "R-MAT-ORIENT:%s:%s[(%s,%s)]*%s" % (d, tast.render(z["e"]), mi[2][0], mi[2][1], vs[0][0])
+                if any(v[1] != mi[1] for v in vs):
+                    v = next(v for v in vs if v[1] != mi[1])
+                    rep.violation("R-MAT-ORIENT", key, "`%s` multiplies the element (%s, %s) by `%s[%s]`: a matrix-vector product pairs the column index with the vector component, this is the transposed product"
+                                  % (tast.render(m)[:80], mi[2][0], mi[2][1], v[0], v[2]), m.get("sp"))
+                else:
+                    n_b += 1
+                    rep.ok("R-MAT-ORIENT", key, "column index pairs with the vector component")
+    if n_a < 4 or n_b < 4 or n_c < 1:
+        rep.inconc("R-MAT-ORIENT", "R-MAT-ORIENT:floor", "expected >= 4 element-wise, >= 4 product and >= 1 finite-difference instances, found %d/%d/%d" % (n_a, n_b, n_c))
+
+
 def run(rep, tier):
     f = facts.load("default")
     rep.rule("R-MASS-DEFAULT", "the default bodies of IVP::mass / IVP::jac store through their &mut Matrix parameter and discard no constructed Matrix")
@@ -116,7 +219,9 @@ def run(rep, tier):
     rep.rule("R-STORAGE-BLIND", "no function under methods/ reads a Matrix field, calls is_identity or branches on MatrixStorage: mass and Jacobian are read only through Index<(usize,usize)>")
     rep.rule("R-LU-FULL", "matrices handed to lu_decomp* are built by Matrix::zeros/full")
     rep.rule("R-BAND-MAP", "same (i,j) => same value for every storage: Index/IndexMut agree (shared with C17)")
+    rep.rule("R-MAT-ORIENT", "every matrix element access in the solvers keeps the (row, col) orientation: element-wise combinations use one index pair, products pair the column with the vector component, the FD Jacobian's column is the perturbed component")
     r_mass_default(rep, f)
+    r_mat_orient(rep, f)
     r_data_private(rep, f)
     r_storage_blind(rep, f)
     r_lu_full(rep, f)
